@@ -6,17 +6,11 @@ every interleaving gives each thread the results of running alone.
 Nothing here is specific to cty: memory is any `Nat → V`, a step any function on
 it with a footprint.  How it applies to cty is said in Props/C20.lean.
 -/
+import CtyModel.Interleave
 namespace CtyModel
 namespace Interleave
 
 variable {V R : Type}
-
-/-- a memory -/
-abbrev Memory (V : Type) := Nat → V
-
-/-- a step: transforms the memory and returns a result -/
-structure Act (V R : Type) where
-  run : Memory V → Memory V × R
 
 /-- `act` depends only on the addresses in `rd ∪ wr` and changes only addresses in `wr` -/
 structure Footprint (act : Act V R) (rd wr : Nat → Prop) : Prop where
@@ -24,42 +18,12 @@ structure Footprint (act : Act V R) (rd wr : Nat → Prop) : Prop where
   locality : ∀ m m', (∀ a, rd a ∨ wr a → m a = m' a) →
     (act.run m).2 = (act.run m').2 ∧ ∀ a, wr a → (act.run m).1 a = (act.run m').1 a
 
-/-- running a list of steps alone -/
-def solo (m : Memory V) : List (Act V R) → Memory V × List R
-  | [] => (m, [])
-  | a :: as =>
-    let r := a.run m
-    let rest := solo r.1 as
-    (rest.1, r.2 :: rest.2)
-
 theorem solo_append (m : Memory V) (as : List (Act V R)) (a : Act V R) :
     solo m (as ++ [a]) =
       ((a.run (solo m as).1).1, (solo m as).2 ++ [(a.run (solo m as).1).2]) := by
   induction as generalizing m with
   | nil => simp [solo]
   | cons b bs ih => simp [solo, ih]
-
-/-- configuration of a concurrent run: memory, what each thread still has to do,
-what each thread has got back so far -/
-structure Cfg (V R : Type) where
-  mem : Memory V
-  todo : Nat → List (Act V R)
-  out : Nat → List R
-
-def upd {α : Type} (f : Nat → α) (i : Nat) (x : α) : Nat → α := fun j => if j = i then x else f j
-
-/-- the scheduler picks thread `i` -/
-def tick (c : Cfg V R) (i : Nat) : Cfg V R :=
-  match c.todo i with
-  | [] => c
-  | a :: rest =>
-    let r := a.run c.mem
-    { mem := r.1, todo := upd c.todo i rest, out := upd c.out i (c.out i ++ [r.2]) }
-
-/-- a schedule is the list of the scheduler's picks -/
-def exec (c : Cfg V R) : List Nat → Cfg V R
-  | [] => c
-  | i :: s => exec (tick c i) s
 
 /-- the threads' steps respect a partition of the addresses: thread `i` reads
 `shared ∪ own i` and writes only `own i` -/
@@ -132,9 +96,6 @@ theorem inv_exec {prog : Nat → List (Act V R)} {shared : Nat → Prop} {own : 
   induction s with
   | nil => intro c h; exact h
   | cons i s ih => intro c h; exact ih (inv_tick hp h i)
-
-/-- the initial configuration -/
-def start (prog : Nat → List (Act V R)) (m0 : Memory V) : Cfg V R := ⟨m0, prog, fun _ => []⟩
 
 theorem inv_start (prog : Nat → List (Act V R)) (shared : Nat → Prop) (own : Nat → Nat → Prop)
     (m0 : Memory V) : Inv prog shared own m0 (start prog m0) :=
